@@ -75,6 +75,13 @@ def _unpack(profile, sim, state):
     sim.fired("F5.restart")
     sim.count("restart_lost_objects", state["lost"])
     step = sim.ops[-1]["i"] if sim.ops else 0
+    # the registrations accepted before the restart belong to the application's start-up: the
+    # successor process registers the same things again before it loads anything
+    from .ops import Codec, call_op
+
+    for rop in state["user"].get("dyn_regs", []):
+        thunk, _t, _a, _kw = call_op(Codec({}), rop)
+        thunk()
     for i in sorted(state["pool"]):
         blob = state["pool"][i]
         if isinstance(blob, tuple):
